@@ -147,6 +147,9 @@ type Case struct {
 	Spell   []int     `json:"spell,omitempty"`   // how the generic data the configuration is normalised from is spelled: decisions nested / dotted keys / mixed, consumed in a fixed traversal order (empty: nested; hist_test.go)
 	Layers  int       `json:"layers,omitempty"`  // != 0: the (spelled) data is split into two inputs that are loaded one after the other (NewFrom, then Merge with the same options); bit n decides where the n-th group of entries goes (entries that contribute to the same list stay together)
 	Hist    *Hist     `json:"hist,omitempty"`    // edits of the lists the faulted setting lies in, made before the fault is read (hist_test.go)
+	Opts    *OptUse   `json:"opts,omitempty"`    // how the calls come by their MetaData options: values reused across calls, two per call, unrelated loads with the same values (optuse_test.go)
+
+	pool map[string]ucfg.Option // the reused MetaData Option values of this run of the case, by source
 }
 
 const (
@@ -784,6 +787,10 @@ func genCase(t *rapid.T) Case {
 	if rapid.IntRange(0, 4).Draw(t, "layered") == 0 {
 		c.Layers = rapid.IntRange(1, 1<<16-1).Draw(t, "layers")
 	}
+	// Option values as values: reused across calls, two MetaData options in one call, unrelated loads
+	if rapid.IntRange(0, 9).Draw(t, "optuse") < 4 {
+		c.Opts = genOptUse(t)
+	}
 	return c
 }
 
@@ -1024,7 +1031,7 @@ func build(c *Case, s *site, fault bool) (*ucfg.Config, []string, *artifacts, er
 func buildCfg(c *Case, s *site, fault bool, art *artifacts) (*ucfg.Config, []string, error) {
 	opts := []ucfg.Option{ucfg.PathSep(".")}
 	if c.Meta != "" {
-		opts = append(opts, ucfg.MetaData(ucfg.Meta{Source: c.Meta}))
+		opts = append(opts, c.metaOpts(c.Meta)...)
 	}
 	in := c.T.New(c.V)
 	cfg, err := ucfg.NewFrom(in.Interface(), opts...)
@@ -1076,13 +1083,13 @@ func buildCfg(c *Case, s *site, fault bool, art *artifacts) (*ucfg.Config, []str
 	if setsValue(c.Kind) {
 		switch c.SetMeta {
 		case "other":
-			sopts = []ucfg.Option{ucfg.PathSep("."), ucfg.MetaData(ucfg.Meta{Source: setSource})}
+			sopts = append([]ucfg.Option{ucfg.PathSep(".")}, c.metaOpts(setSource)...)
 		case "none":
 			sopts = []ucfg.Option{ucfg.PathSep(".")}
 		}
 	}
 	if c.Outer {
-		opts = []ucfg.Option{ucfg.PathSep("."), ucfg.MetaData(ucfg.Meta{Source: outerSource})}
+		opts = append([]ucfg.Option{ucfg.PathSep(".")}, c.metaOpts(outerSource)...)
 	}
 	setFault := func(into *ucfg.Config) error {
 		err := injectSet(into, c, s, sopts)
@@ -1376,6 +1383,11 @@ func runCase(c Case, r *runlog.R) error {
 		}
 		return false
 	}
+	c.pool = map[string]ucfg.Option{}
+	var made []bystander
+	if err := c.bystanders("first", &made); err != nil {
+		return err
+	}
 	base, _, bart, err := build(&c, s, false)
 	var validData interface{}
 	if err == nil && c.Hist != nil && len(c.Hist.Edits) > 0 {
@@ -1406,6 +1418,9 @@ func runCase(c Case, r *runlog.R) error {
 		return nil
 	}
 
+	if err := c.bystanders("between", &made); err != nil {
+		return err
+	}
 	var cfg *ucfg.Config
 	var prefix []string
 	var art *artifacts
@@ -1505,6 +1520,9 @@ func runCase(c Case, r *runlog.R) error {
 		if rl := c.Reloc; rl != nil {
 			reloc += fmt.Sprintf(" relocation: section %d level(s) above the fault, obtained via %q, how=%s where=%q second configuration from %q, attached elsewhere first=%v, list element by idx=%v", rl.Up, rl.Via, rl.How, rl.Where, rl.Target, rl.Pre, rl.Idx)
 		}
+		if c.Opts != nil {
+			reloc += fmt.Sprintf(" options: MetaData values reused=%v, per call=%q, bystanders=%+v", c.Opts.Reuse, c.Opts.Dup, c.Opts.By)
+		}
 		return fmt.Sprintf("fault %s at '%s' (inject=%s move=%s wrap=%v after=%v meta=%q payload=%v tag=%q delivery=%s%s nores=%v setmeta=%q outer=%v)%s", c.Kind, want, c.Inject, c.Move, c.Wrap, c.After, c.Meta, show(c.Payload), c.Tag, d, ref, c.NoRes, c.SetMeta, c.Outer, reloc)
 	}
 
@@ -1526,6 +1544,9 @@ func runCase(c Case, r *runlog.R) error {
 		cfg = readers[0]
 	}
 
+	if err := c.bystanders("last", &made); err != nil {
+		return err
+	}
 	typ := targetType(td, c.Wrap && c.Move == "key")
 	var uerr error
 	var named string
@@ -1590,6 +1611,11 @@ func runCase(c Case, r *runlog.R) error {
 			return fmt.Errorf("the naming of the fault depends on the spelling of the input: nested objects and lists give '%s, spelled with dotted keys '%s\n spelled: %q\n nested:  %q\n %s\n type %v", nested, named, uerr.Error(), nerr.Error(), describe(), typ)
 		}
 		r.Class("spelling: naming compared with the nested spelling (loaded at once) of the same case")
+	}
+
+	// the unrelated configurations loaded with the same Option values still name their own sources
+	if err := checkBystanders(made); err != nil {
+		return fmt.Errorf("%v\n %s", err, describe())
 	}
 
 	// the same fault read through the typed getter of the setting's kind
@@ -1717,6 +1743,22 @@ func runCase(c Case, r *runlog.R) error {
 	}
 	if c.Inject == "set" && storesValue(c.Kind) && c.SetMeta != "" {
 		r.Class("value stored by Set* with source: " + c.SetMeta)
+	}
+	if u := c.Opts; u != nil {
+		r.Class("options: varied")
+		r.ClassIf(u.Reuse, "options: MetaData Option values reused across the calls of the case")
+		r.ClassIf(u.Reuse && len(c.pool) > 1, "options: reused values for several sources")
+		r.ClassIf(u.Dup != "", "options: two MetaData options per call ("+u.Dup+")")
+		for _, m := range made {
+			r.Class("options: bystander load (" + m.b.When + ", " + m.b.Call + ")")
+			r.ClassIf(len(m.b.Opts) > 1, "options: bystander call with several MetaData options")
+			reusedFirst := u.Reuse && len(m.b.Opts) > 1 && strings.HasPrefix(m.b.Opts[0], "$")
+			r.ClassIf(reusedFirst, "options: bystander call with a reused MetaData option first and another after it")
+			mine := reusedFirst && m.b.Opts[0] == "$meta" && c.Meta != "" && c.sourceOf(m.b.Opts[1]) != c.Meta && c.sourceOf(m.b.Opts[1]) != ""
+			r.ClassIf(mine && demand, "options: ... the reused option of the faulted configuration's own source, followed by another source; source demanded")
+			r.ClassIf(mine && demand && m.b.When != "last", "options: ... in a call made before the faulted configuration is loaded")
+			r.ClassIf(m.source == "", "options: bystander whose last MetaData is empty")
+		}
 	}
 	return nil
 }
